@@ -578,7 +578,14 @@ func c11Prepare(c *c11case) func() {
 		b := c.tree("modified", mb)
 		c.classes = append(c.classes, "diff:"+rel)
 		var opts []ygot.DiffOpt
-		switch rapid.IntRange(0, 3).Draw(rt, "opts") {
+		switch rapid.IntRange(0, 4).Draw(rt, "opts") {
+		case 4:
+			// the same kind of option twice (the later one may be merged into the first)
+			o1 := &ygot.DiffPathOpt{MapToSinglePath: rapid.Bool().Draw(rt, "single1"), PreferShadowPath: rapid.Bool().Draw(rt, "shadow1")}
+			o2 := &ygot.DiffPathOpt{MapToSinglePath: rapid.Bool().Draw(rt, "single2"), PreferShadowPath: rapid.Bool().Draw(rt, "shadow2")}
+			opts = append(opts, o1, o2)
+			c.opt("opt DiffPathOpt (first)", o1)
+			c.opt("opt DiffPathOpt (second)", o2)
 		case 1:
 			o := &ygot.IgnoreAdditions{}
 			opts = append(opts, o)
